@@ -40,6 +40,15 @@
    the unread stream alone fills the buffer limit and EOF / exit status /
    CLOSE arrive in that state.  at_eof() of every stream is polled after
    every step of every replay and compared with the specification.
+   ExitAfterOutput (policy "exw"): stdout / stderr redirected to targets
+   written by a background task - an aiofiles-like object and an
+   asyncio.StreamWriter whose writes complete only when the driver says so
+   (TStep) - packets, exit status, CLOSE, one wait() / communicate() /
+   "async with" at any idle point; the state of every target is captured
+   at the very moment the call returns: it must hold all of its stream and
+   have been given EOF / closed.  ReportAtChannelClose is the variant TLC
+   must reject.  run() with self-paced slow targets is in the end-to-end
+   scenarios.
 3. End-to-end: a real server handler writes and calls exit(); run()/wait()
    must return complete output whenever a status or signal is reported.
 """
